@@ -44,6 +44,7 @@ BOUNDS = {
     "quick": {"env": "T1 (int / str / list / path leaves) T5 T6 T7 T8: run A fresh process, memory store, cwd /, extra_debug off; run B disjoint object identities, other cwd, cache-wrapped store, extra_debug on, preceded by another state of the program, edited code and a name-clashing program; graph export on for T1 / T6", "ref": "T1 T5 T6 T7 T8 + T1 with str / bool / float / list / tuple / dict / path leaves vs the frozen reference", "pinned": "native run, real SHA-256"},
     "thorough": {"env": "as quick + bool / float / tuple / dict / none / str3 / non-ASCII leaves on T1, str / list / path leaves on T5 T6 T7 T8", "ref": "as quick + the same leaf types on T5..T8"},
 }
+BUDGET_S = {"thorough": 1320}  # wall budget of the thorough tier: queries not started by then are reported as not run
 LAST_DETAIL = [""]
 
 
